@@ -531,6 +531,8 @@ def enum_term(enum_cls, v):
 
 def smax(*xs):
     if len(xs) == 1:
+        if not isinstance(xs[0], (list, tuple)):
+            return xs[0]
         xs = tuple(xs[0])
     if not any(is_sym(x) for x in xs):
         return max(xs)
@@ -543,6 +545,8 @@ def smax(*xs):
 
 def smin(*xs):
     if len(xs) == 1:
+        if not isinstance(xs[0], (list, tuple)):
+            return xs[0]
         xs = tuple(xs[0])
     if not any(is_sym(x) for x in xs):
         return min(xs)
